@@ -24,7 +24,7 @@ from kern_acceptance import sh, theorem_at
 REPO = gen_kernels.REPO
 TARGETS = ["theories/Props/%s.vo" % c for c in ("C01", "C05", "C09", "C10", "C13", "C16", "C04", "C06", "C07")]
 QUICK = ["theories/Base/%s.vo" % b for b in ("BridgeKafka", "BridgeRateLimit", "BridgeRefCounter", "BridgeSlice", "BridgeNodes",
-                                              "BridgeEmit", "BridgeAggs", "BridgeAggsVec", "BridgeAggsWindow")]
+                                              "BridgeEmit", "BridgeAggs", "BridgeAggsVec", "BridgeAggsWindow", "BridgeAggsIloc")]
 
 
 def build():
